@@ -20,6 +20,7 @@ import (
 // KeySet is the fixed set of asymmetric keys of the harness (embedded PEM, parsed once).
 type KeySet struct {
 	RSA2048, RSA2048b, RSA3072 *rsa.PrivateKey
+	RSA2047, RSA2055           *rsa.PrivateKey // modulus bit length not a multiple of 8
 	P256, P256b, P384, P521    *ecdsa.PrivateKey
 	Ed, Edb                    ed25519.PrivateKey
 }
@@ -46,6 +47,7 @@ func Keys() *KeySet {
 	keysOnce.Do(func() {
 		keys = &KeySet{
 			RSA2048: parse(pemRSA2048).(*rsa.PrivateKey), RSA2048b: parse(pemRSA2048b).(*rsa.PrivateKey), RSA3072: parse(pemRSA3072).(*rsa.PrivateKey),
+			RSA2047: parse(pemRSA2047).(*rsa.PrivateKey), RSA2055: parse(pemRSA2055).(*rsa.PrivateKey),
 			P256: parse(pemP256).(*ecdsa.PrivateKey), P256b: parse(pemP256b).(*ecdsa.PrivateKey),
 			P384: parse(pemP384).(*ecdsa.PrivateKey), P521: parse(pemP521).(*ecdsa.PrivateKey),
 			Ed: parse(pemEd25519).(ed25519.PrivateKey), Edb: parse(pemEd25519b).(ed25519.PrivateKey),
